@@ -49,6 +49,13 @@ def _interp(ll):
     it = _INTERPS.get(ll)
     if it is None:
         it = symir.Interp(_MODS[ll]); _INTERPS[ll] = it
+    if not it.decoded and os.path.exists(ll + '.dec'):
+        # decoded instruction tables written by the worker that explored the root of the tree (saves every other worker the decoding)
+        try:
+            import pickle
+            for nm, (dec, cnt) in pickle.load(open(ll + '.dec', 'rb')).items(): it.decoded[nm] = (it.m.funcs[nm], dec, cnt)
+            it.preloaded = True
+        except Exception: it.decoded = {}
     return it
 
 def worker_task(task):
@@ -77,6 +84,11 @@ def worker_task(task):
             for st in it.pending:
                 left.append(st.decisions + (list(reversed(st.forced)) if st.forced else []))
         it.pending = []
+        if not prefix and not os.path.exists(ll + '.dec') and not getattr(it, 'preloaded', False):
+            try:
+                import pickle
+                tmp = ll + '.dec.%d' % os.getpid(); pickle.dump({nm: (d[1], d[2]) for nm, d in it.decoded.items()}, open(tmp, 'wb'), protocol=4); os.replace(tmp, ll + '.dec')
+            except Exception: pass
         return {'status': status, 'paths': it.paths, 'pruned': it.pruned, 'left': left, 'violations': it.violations, 'nviol': it.nviol,
                 'viol_count': dict(it.viol_count), 'incomplete': it.incomplete[:3], 'samples': samples, 'reached': dict(reached), 'stats': dict(it.stats),
                 'sat': it.sol.nsat - q0[0], 'unsat': it.sol.nunsat - q0[1], 'solver_s': it.sol.time - q0[2], 'wall': time.time() - t0,
